@@ -1168,7 +1168,10 @@ class Interp:
         self.assign_target(g.target, elem, e2, node)
         conds = [to_term(self.eval(c, e2)) for c in g.ifs]
         if kind == "dict":
-            body = sp.Tuple(to_term(self.eval(node.key, e2)), to_term(self.eval(node.value, e2)))
+            # same representation as a loop that stores one entry per element: a family entry keyed by a term over the element
+            kt = to_term(self.eval(node.key, e2))
+            vt = to_term(self.eval(node.value, e2))
+            return {kt: op("guarded", AND(*conds), vt) if conds else vt}
         else:
             body = to_term(self.eval(node.elt, e2))
         return op("comp_" + kind, body, to_term(it), AND(*conds) if conds else TRUE_T)
